@@ -74,6 +74,8 @@ class HyperVFile:
 
                 if entry.type == ObjectEntryType.ObjectTable:
                     # Haven't seen a file yet with additional object tables, but I assume this is how it'd work
+                    if any(table.offset == entry.offset for table in self.object_tables):
+                        raise ValueError(f"Object table at 0x{entry.offset:x} is referenced more than once")
                     new_object_table = HyperVStorageObjectTable(self, entry.offset)
                     self.object_tables.append(new_object_table)
 
